@@ -41,7 +41,7 @@ CHECK_DEADLOCK FALSE
     return p
 
 
-def generate(ctx, maxdepth, minent, maxent, qdepth, nshards=1, shards=None, par=8):
+def generate(ctx, maxdepth, minent, maxent, qdepth, nshards=1, shards=None, par=12):
     """-> (queries, cases); every case is one mount table with its expected vectors."""
     shards = list(range(nshards)) if shards is None else list(shards)
 
@@ -248,10 +248,10 @@ def run(ctx):
     spaces = []
     if ctx.thorough:
         spaces.append(("D2-N3-Q4", generate(ctx, 2, 1, 3, 4, nshards=12)))
-        spaces.append(("D3-N2-Q4", generate(ctx, 3, 1, 2, 4, nshards=12)))
-        # the 3-entry tables over 3-component mount points: 266,760 tables; a seeded 3/60 of them
+        spaces.append(("D3-N2-Q3", generate(ctx, 3, 1, 2, 3, nshards=12)))
+        # the 3-entry tables over 3-component mount points: 266,760 tables; a seeded 2/60 of them
         rng = random.Random(ctx.seed)
-        sh = rng.sample(range(60), 3)
+        sh = rng.sample(range(60), 2)
         spaces.append((f"D3-N3-Q3-shards{sh}of60", generate(ctx, 3, 3, 3, 3, nshards=60, shards=sh)))
     else:
         with ThreadPoolExecutor(max_workers=2) as ex:
